@@ -35,6 +35,9 @@ BOUNDARY = [0, 1, -1, 2, 7, 8, 9, 63, 64, 255, 256, -128, -129, -255, -256, 3276
 # values for every count / size / alignment / address position (the assembler itself has to refuse the absurd ones)
 HUGE = ["1 _ 50", "1 _ 40", "1 _ 20", "1 _ 100", "4294967296.", "4294967295.", "2147483648.", "65535.", "65536.", "65537.", "177777", "200000", "100000",
         "-1", "-65536.", "-(1 _ 50)", "0x7fffffff", "0xffffffffffff", "32768.", "1 _ 17 - 1", "(1 _ 50) / 3", "3000.", "40000."]
+# symbol names next to the name families the code special-cases (accumulators ac0..ac5, registers r0..r7 / sp / pc)
+NEAR_RESERVED = ["acc", "acm", "ac6", "ac7", "ac9", "ac10", "aca", "acz", "ac", "ac0x", "ac$", "ac_", "ACC", "Ac6", "r8", "r9", "r10", "rx", "ra", "r", "r00", "r07", "R8", "spx", "sp0", "s", "spp",
+                 "pcx", "pc0", "pcc", "p", "acr0", "r0ac", "ac.", "ac5a"]
 SHIFT_COUNTS = [0, 1, 2, 3, 7, 8, 15, 16, 17, 31, 32, 33, 64, 100, 4096, -1, -2, -16, 65535, 65536, 65537, -65536, -65537, 2 ** 32, -2 ** 32, 2 ** 64, 2 ** 100]
 
 
@@ -187,6 +190,8 @@ class Gen:
         c = r.random()
         if self.ghosts and r.random() < 0.12:
             return self.case_of(r.choice(self.ghosts))
+        if r.random() < 0.03:
+            return r.choice(NEAR_RESERVED)
         if pool and c < 0.8:
             return self.case_of(r.choice(pool))
         if self.locals and c < 0.9:
@@ -289,8 +294,12 @@ class Gen:
         if stub == "RegisterModeOperandStub":
             return self.rm()
         if stub == "FP11RMOperandStub":
+            if self.p(0.08):
+                return self.ch(NEAR_RESERVED)
             return self.case_of(self.ch(ACCS)) if self.p(0.3) else self.rm()
         if stub == "FP11AccumulatorOperandStub":
+            if self.p(0.06):
+                return self.ch(NEAR_RESERVED)
             return self.case_of(self.ch(ACCS)) if self.p(0.9) else self.ch(["r0", "ac6", "5", "(r1)"])
         if stub == "OffsetOperandStub":
             c = r.random()
@@ -724,6 +733,7 @@ class Gen:
             "backward-skip": lambda: r.choice([".link 1000\nnop\n. = 1000", ".link 1000\n. = 777", ".link 1000\n.blkb 10\n. = . - 4", ".link 1000\n. = -1", ".link 1000\n. = 200000", ".link 1000\n. = fwd\nfwd = 500"]),
             "end-variants": lambda: r.choice([".end\n)))", ".end 1", "end", ".repeat 2 { .end }\nnop", ".end\n.end", ".once\n.once", ".END\n\"", ".end ; c\n'", "nop\n.end\n.word ("]),
             "extern-misuse": lambda: r.choice([".extern 5", ".extern", ".extern all, all", ".extern a+b", ".extern \"a\"", ".extern (a)", ".extern all\nea:\neb = 1", ".extern .", ".extern r0", ".extern 1$", ".extern -a", ".extern a b"]),
+            "near-reserved-names": lambda: self.near_reserved(),
             "huge-shift": lambda: self.huge_shift(),
             "extern-undefined": lambda: self.extern_undefined(),
             "huge-count": lambda: self.huge_count(),
@@ -738,6 +748,32 @@ class Gen:
                                                            "(1)(2)", "<1>(2)", "(1)<2>", "<1><2>", "1(2)(3)", "^/1/(2)", "(1", "1)", "<1", "1>", "(1>", "<1)", "^/1", "^/1)", "(^/1)/", "a(", "a()", "a(,)", "(,)", "(;)", "<;>", "(\n1\n)", "<1\n>", "1 +\n2", "(1 + ; c\n 2)"]),
         }
         return F
+
+    def near_reserved(self):
+        """a symbol whose name sits next to a reserved-looking family (acc, ac6, r8, rx, spx, pcx ...), defined as a label or a constant (or
+        left undefined) and used as an FP11 operand in either position of every FP11 mnemonic, as a general operand, in %-forms, as a
+        label / definition target: ok or a reported error, never an internal error"""
+        r = self.r
+        n, n2 = r.choice(NEAR_RESERVED), r.choice(NEAR_RESERVED)
+        fp = [(m, sig) for m, sig in self.insns if any(x.startswith("FP11") for x in sig)]
+        m, sig = r.choice(fp)
+
+        def fpop(stub):
+            c = r.random()
+            if c < 0.6:
+                return r.choice([n, n2])
+            if stub == "FP11AccumulatorOperandStub":
+                return r.choice(ACCS + [n])
+            return r.choice([n, f"@{n}", f"#{n}", f"{n}(r1)", f"({n})", f"%{n}", f"(%{n})", f"-({n})", f"{n}+2", "ac1", "(r2)+"])
+        fpi = self.case_of(m) + " " + ", ".join(fpop(x) for x in sig)
+        define = r.choice([f"{n}: .word 0, 0", f"{n} = 4", f"{n} == 2", f"{n}:: .blkw 4", "", f"{n}:\n{n2} = {n} + 2", f". = 2000\n{n}: .blkb 10"])
+        gen = r.choice([f"mov {n}, r0", f"mov #{n}, {n2}", f"clr @{n}", f"jsr pc, {n}", f"br {n}", f"sob r0, {n}", f"mul {n}, r1", f"xor r1, {n}", f"rts {n}", f"mov %{n}, r0", f"clr (%{n})+",
+                        f"mov {n}(%{n2}), r0", f".word {n}, {n2}", f".byte {n} & 7", f".blkb {n}", f".extern {n}", f"emt {n}", f"mark {n}", f"ldf {n}, {n2}", f"stf {n2}, {n}", f"clrf {n}", f"ldfps {n}", f"{n} 1, 2"])
+        parts = [define, fpi, gen] if self.p(0.7) else [fpi, gen, define]
+        if self.p(0.3):
+            m2, sig2 = r.choice(fp)
+            parts.append(self.case_of(m2) + " " + ", ".join(fpop(x) for x in sig2))
+        return "\n".join(x for x in parts if x)
 
     def huge_shift(self):
         """shift counts around and far beyond the assembler's own bound (2**16), through << _ >>, positive and negative, as constants,
